@@ -122,6 +122,19 @@ func specialCasePart(c *Ctx, op int, part []int, vals0 []*Opnd, zprec uint32, mo
 	exp = spec.Model(valsOf(vals), ep, mode)
 	o, pv, isNaN, after, _ := execPart(spec, part, vals, zprec, mode, pre)
 	c.Outcome(o.Hash() ^ b2u(pv != nil))
+	if c.prop.ID == "C09" {
+		// attribute judge only: the receiver ends with the documented precision and its own mode
+		// (also on the paths that end in a special value or go through an overflowing intermediate)
+		if pv == nil {
+			c.NonTrivial()
+			wantPrec := effPrec(op, zprec, vals)
+			if o.Prec != wantPrec || o.Mode != mode {
+				c.Fail(fmt.Sprintf("%s %s alias=%s zprec=%d mode=%s pre=%s %s", spec.Name, opndsString(vals), partString(part), zprec, modeName(mode), preNames[pre], tag),
+					fmt.Sprintf("receiver attributes after the call: precision %d mode %s, want precision %d mode %s (%s)", o.Prec, modeName(o.Mode), wantPrec, modeName(mode), o))
+			}
+		}
+		return
+	}
 	key := func() string {
 		al := ""
 		if !identity {
